@@ -43,20 +43,52 @@ class ParsedSpec:
         self.clause = clause
 
 
+class SpecObj:
+    """packaging.specifiers.Specifier(clause text)"""
+
+    def __init__(self, clause):
+        self.clause = clause
+
+
+class _SpecifierCtor:
+    pass
+
+
+class EnvMapping:
+    """the `environment` argument of _evaluate(): environment[name] is the dotted text of the ghost interpreter version"""
+
+    def __init__(self, values):
+        self.values = values
+
+
 class PyvTheory:
+    text_tokens = ("Dotted", "IntText", "Clause")
+
     def __init__(self, index):
         self.index = index
         self.laws = {}
+
+    def index_env(self, ex, key):
+        return self.env_value
+
+    def call_other(self, ex, f, args, kw):
+        if isinstance(f, _SpecifierCtor):
+            if len(args) == 1 and isinstance(args[0], Clause):
+                return SpecObj(args[0])
+            raise OutsideSubset("Specifier() of something that is not a clause")
+        return NotImplemented
 
     def law(self, ex, op, *vals):
         return None
 
     def external(self, ex, mod, name):
+        if mod.startswith("packaging") and name == "Specifier":
+            return _SpecifierCtor()
         return None
 
     def getattr_other(self, ex, o, attr):
         from pyvc.expr import BoundBuiltin
-        if isinstance(o, (Dotted, IntText)):
+        if isinstance(o, (Dotted, IntText, SpecObj)):
             return BoundBuiltin(o, attr)
         return None
 
@@ -67,6 +99,11 @@ class PyvTheory:
             raise OutsideSubset("in / not in value lists")
         if isinstance(recv, IntText) and name == "strip" and not args:
             return recv
+        if isinstance(recv, SpecObj) and name == "contains" and len(args) >= 1 and isinstance(args[0], Dotted):
+            # A-PKG-CONTAINS: Specifier(clause).contains(version text) is the PEP 440 meaning of the clause on release-only versions
+            cand = seg_terms(args[0].segs)
+            cand = cand + [z3.IntVal(0)] * (3 - len(cand))
+            return clause_admits(recv.clause.op, recv.clause.dotted.segs, tuple(cand))
         if recv == "." and name == "join" and len(args) == 1 and isinstance(args[0], list):
             return Dotted(args[0])
         return NotImplemented
@@ -210,6 +247,41 @@ def cases(th):
                 ok = isinstance(res, ParsedSpec) and res.clause.op == op and res.clause.dotted.segs == segs
                 return [("C11.view.is-the-parse-of-the-atoms-own-clause", z3.BoolVal(bool(ok)))]
             yield {"name": f"view|{name}|{op}", "pre": [X >= 0, Y >= 0], "thunk": (lambda ex, m=m: ex.call_function(g, [m], inline=True)), "post": post2, "args": ()}
+
+
+def bridge_cases(th):
+    """C11 (a): MarkerExpression._evaluate on a version atom = the environment's value lies in the atom's specifier view, both operand orders"""
+    ev_f = th.index.func(S + "MarkerExpression._evaluate")
+    g = th.index.func(GETSPEC)
+    A, B, C = z3.Int("a!env"), z3.Int("b!env"), z3.Int("c!env")
+    envs = {"python_full_version": [IntText(A), IntText(B), IntText(C)], "python_version": [IntText(A), IntText(B)], "platform_release": [IntText(A), IntText(B), IntText(C)]}
+    for name, env_segs in envs.items():
+        for rev in (False, True):
+            for op in OPS:
+                if rev and op == "~=":
+                    continue          # `"V" ~= variable` is outside the well-defined atoms
+                for shape, segs, pre in value_shapes()[:2] + [("X.Y.Z", [IntText(z3.Int("X")), IntText(z3.Int("Y")), IntText(z3.Int("Z"))], [z3.Int("X") >= 0, z3.Int("Y") >= 0, z3.Int("Z") >= 0])]:
+                    if op == "~=" and shape == "X":
+                        continue
+                    m = atom(th, op, segs, rev)
+                    m.fields["name"] = name
+
+                    def thunk(ex, m=m, name=name, env_segs=env_segs):
+                        th.env_value = Dotted(env_segs)
+                        got = ex.call_function(ev_f, [m, EnvMapping({name: Dotted(env_segs)})], inline=True)
+                        view = ex.call_function(g, [m], inline=True)
+                        return (got, view)
+
+                    def post(ex, v, env_segs=env_segs):
+                        got, view = v
+                        if not isinstance(view, ParsedSpec):
+                            return [("C11.bridge.view-is-a-parsed-clause", z3.BoolVal(False))]
+                        cand = seg_terms(env_segs)
+                        cand = tuple(cand + [z3.IntVal(0)] * (3 - len(cand)))
+                        in_view = clause_admits(view.clause.op, view.clause.dotted.segs, cand)
+                        got = got if z3.is_expr(got) else z3.BoolVal(bool(got))
+                        return [("C11.bridge.evaluate-iff-value-in-specifier-view", got == in_view)]
+                    yield {"name": f"bridge|{name}|{op}|{shape}|reversed={rev}", "pre": pre + [A >= 0, B >= 0, C >= 0], "thunk": thunk, "post": post, "args": ()}
 
 
 def setup(ix):
